@@ -48,6 +48,10 @@ RULE = ("a case is one schedule: storage {FileStorage, RamStorage} x compound {o
         "distinct (storage, compound, threads, front-ends, multiset of attempt outcomes, policy family); distinct "
         "INTERLEAVINGS (hash of the owner sequence of the schedule) are counted separately (interleavings.distinct).")
 ASSUMPTIONS = [
+    "fork-while-locked cases (vf/workers/c04_fork.py, one in 25 cases): the process forks with os.fork() while a writer holds "
+    "the lock and the child lives on without touching the index; commit / cancel / failing with-block / BufferedWriter "
+    "flush must each leave the lock free for the next writer of the parent (Linux only; the child holds a duplicate of "
+    "the lock descriptor, so only an explicit unlock releases it)",
     "schedule space is sampled, not enumerated: scheduling points are storage events (tap) everywhere and "
     "additionally LINE events inside writing/index/filestore/filelock in a quarter (thorough: a third) of the schedules",
     "threaded runs decide timeouts in VIRTUAL time (scheduler steps x tick; try_for's time.time/time.sleep are "
@@ -71,7 +75,7 @@ SHARDS = {"quick": 4, "thorough": 16}
 BUDGET_S = {"quick": 60, "thorough": 660}
 FLOORS = {
     # quick floors = about 1/4 of the minimum over seeds 0..4 (4 shards x 60 s on a busy 16-core machine)
-    "quick": {"schedules": 240, "sched.steps": 600000, "interleavings.distinct": 240, "attempts.lockerror": 1000,
+    "quick": {"fork.cases": 8, "schedules": 240, "sched.steps": 600000, "interleavings.distinct": 240, "attempts.lockerror": 1000,
               "commits.successful": 1700, "attempts.overlapping": 1600, "lock.failed_tries.justified": 17000,
               "mutex.acquisitions_checked": 2000, "reads.after_commit": 1400, "reads.under_lock": 700,
               "finish.cancel": 250, "finish.exception": 160, "timeout.lower_bound_checked": 1000,
@@ -974,13 +978,54 @@ def check_proc_history(ctx, recs, g0, model0, d, wb):
 
 # ----------------------------------------------------------------------
 
+def run_fork_case(ctx, idx, rng):
+    """A writer holds the lock, the process forks, the writer finishes while the forked child is still alive: commit(),
+    cancel(), a failing with-block and a BufferedWriter flush must each leave the lock free for the next writer."""
+    from vf.core import ROOT, repo_root
+    mode = ["commit", "cancel", "with-exception", "buffered"][(idx // ctx.nshards) % 4]
+    root = tempfile.mkdtemp(prefix="vf-c04f-")
+    wb = {"case": idx, "kind": "fork-while-locked", "finish": mode}
+    env = dict(os.environ)
+    env["PYTHONPATH"] = ROOT + os.pathsep + env.get("PYTHONPATH", "")
+    env["PYTHONHASHSEED"] = "0"
+    env["VERIF_REPO"] = repo_root()
+    ctx.count("fork.cases")
+    try:
+        try:
+            r = subprocess.run([sys.executable, "-W", "ignore", "-m", "vf.workers.c04_fork", os.path.join(root), mode, "%d:%d" % (ctx.seed, idx)],
+                               cwd=ROOT, env=env, capture_output=True, text=True, timeout=120)
+        except subprocess.TimeoutExpired:
+            ctx.count("fork.watchdog")
+            ctx.extra.setdefault("_inconclusive", []).append("fork case %d: watchdog" % idx)
+            return
+        lines = [ln for ln in r.stdout.splitlines() if ln.startswith("{")]
+        out = json.loads(lines[-1]) if lines else {}
+        if r.returncode == 3:
+            ctx.fail("no-exception", "fork:exc:%s" % out.get("error", "?"), wb, r.stderr[-1500:])
+        elif r.returncode != 0 or not out:
+            raise AssertionError("harness: c04_fork exit %s\n%s" % (r.returncode, r.stderr[-1500:]))
+        else:
+            ctx.count("fork.finish.%s" % mode)
+            exp = {"commit": ["a", "b", "z"], "cancel": ["a", "z"], "with-exception": ["a", "z"], "buffered": ["a", "b", "c", "z"]}[mode]
+            if out.get("second_writer") != "ok":
+                ctx.fail("lock.released", "still-locked-after-%s-while-a-forked-child-lives" % mode, dict(wb, observed=out),
+                         "the next writer got %r" % (out.get("second_writer"),))
+            elif out.get("docs") != exp:
+                ctx.fail("no-lost-update", "fork:%s:documents" % mode, dict(wb, observed=out, expected=exp))
+    finally:
+        shutil.rmtree(root, ignore_errors=True)
+    ctx.case(("fork", mode), True)
+
+
 def run(ctx):
     nthread_cases = ctx.pick(400, 4000)
     for idx in ctx.cases(quick=nthread_cases, thorough=nthread_cases):
         rng = ctx.rng(idx)
         ctx.reseed_global(idx)
         k = idx // ctx.nshards
-        if k % ctx.pick(40, 30) == 3:
+        if k % ctx.pick(25, 25) == 7:
+            run_fork_case(ctx, idx, rng)
+        elif k % ctx.pick(40, 30) == 3:
             run_proc_case(ctx, idx, rng)
         elif k % ctx.pick(4, 3) == 1:
             run_thread_case(ctx, idx, rng, lines=True)
